@@ -528,6 +528,9 @@ func (x *Exec) syncMap(st *State, fn *ssa.Function, args []SVal, pos token.Pos, 
 	rest := args[1:]
 	if name != "Range" {
 		res := x.freshResults(st, m+"."+name, fn.Signature)
+		if (name == "Load" || name == "LoadOrStore" || name == "LoadAndDelete") && len(res) > 0 {
+			res[0].Src = "elem" // an element of the map: its type is the map's element invariant
+		}
 		x.event(st, Event{Name: m + "." + name, Args: rest, Res: res, Pos: pos})
 		k(st, Exit{Kind: ExitReturn, Results: res})
 		return
